@@ -197,6 +197,15 @@ func registerIntrinsics(e *Engine) {
 		}
 		return all
 	}
+	// verifOpaqueBytes(n): a byte slice of (possibly symbolic) length n whose
+	// content is never observed (len() works; indexing/iterating aborts the path)
+	in["verifOpaqueBytes"] = func(p *Path, caller *frame, pos token.Pos, args []Value) Value {
+		n := args[0].(*Term)
+		if p.lia {
+			p.assume(p.ts.ILe(p.ts.Int64(0), n))
+		}
+		return &AbsBytes{Len: n, Name: "opaque"}
+	}
 	// taint
 	in["verifTaintString"] = func(p *Path, caller *frame, pos token.Pos, args []Value) Value {
 		s := args[0].(StringV)
